@@ -17,7 +17,7 @@ FUNCTIONS = ["xgcm.padding:_pad_face_connections", "xgcm.padding:_maybe_swap_dim
 BOUNDS = {
     "quick": {"decompositions": "(2,1),(1,2): all 64 D4 orientation pairs, (2,2): all 4096 quadruples; those expressible in the link format are run (counted in evidence), open and periodic domain",
               "N": [2], "rules on unlinked edges": ["fill (symbolic)", "extend", "periodic"], "operators": ["diff", "min"], "to": ["left", "outer"],
-              "face dim position": ["first", "after extra dim"]},
+              "face dim position": ["first", "after extra dim", "before extra dim"]},
     "thorough": {"decompositions": "+ (3,1),(1,3) all 512 triples each, (3,2)/(2,3) seeded sample of 20000 sextuples", "N": [2, 3],
                  "operators": ["diff", "interp", "min", "max"], "to": ["left", "right", "outer", "inner"]},
 }
@@ -44,7 +44,7 @@ def cases(tier):
                 for N in ([2] if tier == "quick" else [2, 3]):
                     if N == 3 and Kx * Ky > 2 and oi % 4:
                         continue
-                    for lay in (("fyx", "tfyx") if Kx * Ky <= 2 else ("fyx",)):
+                    for lay in (("fyx", "tfyx", "ftyx") if Kx * Ky <= 2 else ("fyx",)):
                         out.append(dict(Kx=Kx, Ky=Ky, N=N, orient=[list(map(list, o)) for o in orient], periodic=periodic,
                                         lay=lay, n_expressible=len(oris), n_orientations=total, ops=OPS_T[tier], tos=TOS_T[tier]))
     if tier == "thorough":
@@ -110,7 +110,9 @@ def case(W, cfg):
                 for i in range(N):
                     gx, gy = dec.to_global(f, i, j)
                     data[tt, f, j, i] = G[gy][gx] if tt == 0 else G[gy][gx] * 2 + 1
-    if "t" in cfg["lay"]:
+    if cfg["lay"] == "ftyx":
+        da = xr.DataArray(data, dims=["t", "face", "yc", "xc"]).transpose("face", "t", "yc", "xc")
+    elif "t" in cfg["lay"]:
         da = xr.DataArray(data, dims=["t", "face", "yc", "xc"])
     else:
         da = xr.DataArray(data[0], dims=["face", "yc", "xc"])
@@ -134,7 +136,7 @@ def case(W, cfg):
                     W.require("dims:" + lab, tuple(r.dims) == exp_dims, "%s want %s" % (r.dims, exp_dims))
                     if tuple(r.dims) != exp_dims:
                         continue
-                    rd = r.data if "t" in cfg["lay"] else r.data[None]
+                    rd = r.transpose("t", "face", ...).data if "t" in cfg["lay"] else r.data[None]
                     got, want = [], []
                     for tt in range(nt):
                         GG = G if tt == 0 else [[v * 2 + 1 for v in row] for row in G]
